@@ -695,3 +695,107 @@ impl DeferralRig {
         (g.selection_deferral.is_some(), g.selection_deferral_timer.as_ref().is_some_and(|h| !h.is_finished()))
     }
 }
+
+
+/// The daemon's Global (policy table + neighbours with per-peer export assignments) for the
+/// policy life-cycle glue: Global::{add_policy, delete_policy, add_policy_assignment}.
+pub(crate) struct PolicyRig {
+    pub(crate) g: Global,
+    pub(crate) tables: TableHandle,
+    pub(crate) peers: Vec<IpAddr>,
+}
+
+impl PolicyRig {
+    pub(crate) fn new(n_peers: u8) -> Self {
+        let (tx, _rx) = mpsc::unbounded_channel();
+        let (bfd_tx, _bfd_rx) = mpsc::unbounded_channel();
+        let mut g = Global::new(tx, bfd_tx);
+        g.asn = 65000;
+        g.router_id = Ipv4Addr::new(1, 0, 0, 1);
+        let mut peers = Vec::new();
+        for i in 0..n_peers {
+            let addr = IpAddr::V4(Ipv4Addr::new(10, 0, 0, 1 + i));
+            let params = PeerParams {
+                remote_addr: addr,
+                remote_port: Global::BGP_PORT,
+                expected_remote_asn: 65001 + i as u32,
+                local_asn: 0,
+                passive: true,
+                rs_client: false,
+                route_reflector: RouteReflectorConfig { route_reflector_client: false, route_reflector_cluster_id: None },
+                delete_on_disconnected: false,
+                admin_down: false,
+                state: SessionState::Idle,
+                holdtime: 90,
+                connect_retry_time: PeerParams::DEFAULT_CONNECT_RETRY_TIME,
+                multihop_ttl: None,
+                ttl_security: None,
+                password: None,
+                families: [(Family::IPV4, 0)].into_iter().collect(),
+                send_max: FnvHashMap::default(),
+                prefix_limits: Default::default(),
+                graceful_restart: None,
+                llgr: None,
+                bfd_config: None,
+                neighbor_interface: None,
+                bind_interface: None,
+                export_policy: None,
+            };
+            if g.add_peer(params, None).is_ok() {
+                peers.push(addr);
+            }
+        }
+        PolicyRig { g, tables: Arc::new(TableManager::new(1)), peers }
+    }
+
+    pub(crate) fn ptable(&mut self) -> &mut table::PolicyTable {
+        &mut self.g.ptable
+    }
+
+    /// AddPolicyAssignment: `peer` = None is the global assignment
+    pub(crate) fn assign(&mut self, peer: Option<usize>, export: bool, names: Vec<String>, accept: bool) -> Result<(), String> {
+        let req = api::PolicyAssignment {
+            name: peer.map(|p| self.peers[p % self.peers.len()].to_string()).unwrap_or_else(|| "global".to_string()),
+            direction: if export { api::PolicyDirection::Export as i32 } else { api::PolicyDirection::Import as i32 },
+            policies: names.into_iter().map(|name| api::Policy { name, statements: vec![] }).collect(),
+            default_action: if accept { api::RouteAction::Accept as i32 } else { api::RouteAction::Reject as i32 },
+        };
+        self.g.add_policy_assignment(self.tables.clone(), req).map_err(|e| format!("{e:?}"))
+    }
+
+    pub(crate) fn delete_policy(&mut self, name: &str, preserve_statements: bool, all: bool, statements: Vec<String>) -> Result<(), String> {
+        self.g.delete_policy(self.tables.clone(), name, preserve_statements, all, statements).map_err(|e| format!("{e:?}"))
+    }
+
+    pub(crate) fn add_policy(&mut self, name: &str, statements: Vec<String>) -> Result<(), String> {
+        self.g.add_policy(name, statements).map_err(|e| format!("{e:?}"))
+    }
+
+    /// what the table lists: policy -> statement names, and the statements that exist
+    pub(crate) fn table_view(&self) -> (std::collections::BTreeMap<String, Vec<String>>, std::collections::BTreeSet<String>) {
+        let pols = self.g.ptable.iter_policies(String::new()).map(|p| (p.name.to_string(), p.statements.iter().map(|s| s.name.to_string()).collect())).collect();
+        let stmts = self.g.ptable.iter_statements(String::new()).map(|s| s.name.to_string()).collect();
+        (pols, stmts)
+    }
+
+    /// what each user evaluates: (user, policy name, its statement names); users are the peers'
+    /// export assignments and the two global assignments as stored in the TableManager
+    pub(crate) fn users_view(&self) -> Vec<(String, String, Vec<String>)> {
+        let mut out = Vec::new();
+        for a in &self.peers {
+            if let Some(asg) = self.g.peers.get(a).and_then(|p| p.state.export_policy.load_full()) {
+                for p in &asg.policies {
+                    out.push((a.to_string(), p.name.to_string(), p.statements.iter().map(|s| s.name.to_string()).collect()));
+                }
+            }
+        }
+        for (who, asg) in [("global-import", self.tables.import_policy.load_full()), ("global-export", self.tables.export_policy.load_full())] {
+            if let Some(asg) = asg {
+                for p in &asg.policies {
+                    out.push((who.to_string(), p.name.to_string(), p.statements.iter().map(|s| s.name.to_string()).collect()));
+                }
+            }
+        }
+        out
+    }
+}
